@@ -355,6 +355,7 @@ def new_processing_instruction_node(
     :return: The newly created processing instruction node.
     """
     ProcessingInstructionNode._validate_target_value(target)
+    ProcessingInstructionNode._validate_content(content)
     result = _wrapper_cache(etree.PI(target, content))
     assert isinstance(result, ProcessingInstructionNode)
     return result
@@ -1701,7 +1702,13 @@ class ProcessingInstructionNode(_ChildLessNode, _ElementWrappingNode, NodeBase):
 
     @content.setter
     def content(self, value: str):
+        self._validate_content(value)
         self._etree_obj.text = value
+
+    @staticmethod
+    def _validate_content(value: str):
+        if value.startswith((" ", "\t", "\n", "\r")):
+            raise ValueError("The content can't start with whitespace.")
 
     @property
     def target(self) -> str:
